@@ -4,9 +4,14 @@ Two parts, both exhaustive over a stated finite space and executed on the real
 ``deblend_sources``:
 
 (C) refinement: full Cartesian product  frame x numbering x data variant x
-    labels-subset x nlevels x contrast x mode x connectivity x relabel x
+    labels-argument x nlevels x contrast x mode x connectivity x relabel x
     npixels (nproc=1), judged by a set-partition oracle written on the label
-    arrays (mcphot/ref/deblend_scenes.py).  The parent alphabet has smooth
+    arrays (mcphot/ref/deblend_scenes.py).  The labels argument is an ORDERED
+    list in the caller's order (the parents are processed, and child labels
+    handed out, in that order): None, every scalar, every pair in both orders,
+    full lists ascending / descending / non-monotone; a reduced sub-product
+    spells the same lists as numpy scalar / tuple / int64 / int32 array.
+    The parent alphabet has smooth
     blends, pixel-art parents (ties, plateau, tiny) and "spike" parents: a
     blend with a sub-npixels bright component (hot pixel, 2x2 hit, generic
     noise) inside the segment, placed first / between / last among the marker
@@ -18,7 +23,10 @@ Two parts, both exhaustive over a stated finite space and executed on the real
     of ``photutils.segmentation.deblend`` are replaced by an in-process
     recording executor (mcphot/schedules.py) whose ``as_completed`` yields the
     futures in a prescribed permutation; ALL N! completion orders of every
-    schedule scene x configuration x nproc in {2, 3, N} are executed and the
+    schedule scene x configuration (incl. the labels argument: None, scalars,
+    ascending, descending and non-monotone lists / arrays, so that "order of
+    the caller's list", "ascending label order", "raster order" and "completion
+    order" are four different orders) x nproc in {2, 3, N} are executed and the
     result (.data, dtype, .labels, deblend maps, info, emitted warnings) must
     be bit-identical to nproc=1.  A free-running conformance pass uses the real
     spawn pool behind the same recording and requires (i) the same result as
@@ -43,8 +51,14 @@ RULE = ('(B) schedules: for every schedule scene x configuration x nproc in {2,3
         'compared bit-exactly with nproc=1; traces = permutations executed, transitions = Future.result() deliveries '
         '(each moves the merge state S -> S+{i}), states = distinct (configuration, set of results consumed so far) '
         'recorded by the executor; a schedule is non-trivial when it is not the submission order and at least two of '
-        'the tasks really deblend their parent. (C) refinement: full Cartesian product frame x numbering x variant x '
-        'labels-subset x nlevels x contrast x mode x connectivity x relabel x npixels; frames = every single parent '
+        'the tasks really deblend their parent; a configuration includes the labels= argument as an ORDERED list: None, '
+        'every scalar label, ascending / descending / rotated (non-monotone) lists, as list and as int64 array (counter '
+        'schedules_non_ascending_labels_with_two_parents_split measures the cases where the caller order matters). '
+        '(C) refinement: full Cartesian product frame x numbering x variant x '
+        'labels-argument (None, every scalar, every pair in BOTH orders, full lists of >= 3 parents in all 3! orders '
+        'or ascending/descending/rotated) x nlevels x contrast x mode x connectivity x relabel x npixels, plus a reduced '
+        'sub-product over the Python representation of labels= (numpy scalar, 1-element list, tuple, int64 and int32 '
+        'array); frames = every single parent '
         'type, ALL ordered pairs (thorough: also all ordered triples) over the core alphabet {single, 2-blend, 3-blend, '
         '2-blend with a sub-npixels spike that leaves a hole in its marker numbers}, and designed frames; non-trivial '
         'when at least one parent is split; cases are distinct product indices')
@@ -62,7 +76,14 @@ ASSUMPTIONS = ['the parent process observes the pool only through the order in w
                'sparse noise image; that the hot-pixel parents really produce the stated marker pattern at the first '
                'separating level is checked by selftest/test_c06_schedules.py with a plain flood fill (not observed at '
                'run time); several spikes per parent at designed places, and spikes on 3-blends other than "first", are '
-               'not enumerated']
+               'not enumerated',
+               'labels= lists are duplicate-free: the property quantifies over label SUBSETS and the documentation ("the '
+               'label numbers to deblend") defines no multiplicity, so what a repeated label should do (the pinned serial '
+               'path deblends the parent twice and burns a block of child numbers) is not stated and is not judged; the '
+               'ORDER of the list is part of the enumerated space (all orders of 2- and 3-label lists, ascending / '
+               'descending / rotated for longer ones) and the Python representation (int, numpy integer, list, tuple, '
+               'int64 / int32 ndarray) too; that the caller\'s labels ndarray is not modified is not stated by the property '
+               'and not checked (a labels list is)']
 
 NLEVELS = (1, 4, 32)
 CONTRAST = (0.0, 0.001, 0.3, 1.0)
@@ -108,22 +129,88 @@ def refine_variants(tier, frame):
     return ('pos', 'nonpos', 'quantity')
 
 
+def labels_arg(labels, kind):
+    """The object handed to ``labels=``.  ``labels`` is plain JSON data (None,
+    an int, or a list of ints in the CALLER'S order); ``kind`` is its Python
+    representation: None = as is (int / list), 'npint' numpy integer scalar,
+    'list1' one-element list, 'tuple', 'array' int64 ndarray, 'array32' int32
+    ndarray."""
+    if labels is None:
+        return None
+    if isinstance(labels, int):
+        if kind == 'npint':
+            return np.int64(labels)
+        if kind == 'list1':
+            return [labels]
+        if kind in ('array', 'array32'):
+            return np.array([labels], dtype=np.int64 if kind == 'array' else np.int32)
+        if kind == 'tuple':
+            return (labels,)
+        return labels
+    if kind == 'tuple':
+        return tuple(labels)
+    if kind == 'array':
+        return np.array(labels, dtype=np.int64)
+    if kind == 'array32':
+        return np.array(labels, dtype=np.int32)
+    return list(labels)
+
+
+def jsonable_sub(x):
+    return {'labels': x[0], 'as': x[1] or ('int' if isinstance(x[0], int) else 'list' if x[0] is not None else None)}
+
+
+def rotated(ls):
+    """A non-monotone order of >= 3 sorted labels (neither ascending nor
+    descending): the sorted list rotated by one, e.g. [1, 2, 3] -> [2, 3, 1]."""
+    ls = sorted(ls)
+    return ls[1:] + ls[:1]
+
+
 def subsets(labs, tier):
-    """labels= alphabet: None, each single label (as a scalar int), every pair
-    (ascending list); thorough adds every pair in descending order for frames
-    of at most 2 parents and the designed frames."""
-    out = [None]
+    """labels= alphabet of the refinement product, as (labels, kind) pairs in
+    the CALLER'S order (deblend_sources processes the parents, and hands out
+    child labels, in that order): None, each single label (scalar int), every
+    pair in both orders, and for >= 3 parents the full list: ALL 3! orderings
+    for frames of exactly 3 parents (except the 64 core triples of the thorough
+    tier), otherwise ascending / descending / rotated (non-monotone).
+    A list with a REPEATED label is not a label subset (the property quantifies
+    over label subsets; the documentation defines no multiplicity): not enumerated."""
+    out = [(None, None)]
     ls = sorted(labs)
-    out += [l for l in ls]
-    out += [[a, b] for a, b in itertools.combinations(ls, 2)]
-    if tier == 'thorough+desc':
-        out += [[b, a] for a, b in itertools.combinations(ls, 2)]
+    out += [(l, None) for l in ls]
+    out += [([a, b], None) for a, b in itertools.combinations(ls, 2)]
+    out += [([b, a], None) for a, b in itertools.combinations(ls, 2)]
+    if len(ls) >= 3:
+        full = [ls, ls[::-1], rotated(ls)]
+        if len(ls) == 3 and tier != 'core3':
+            full = [list(q) for q in itertools.permutations(ls)]
+        out += [(q, None) for q in full]
     return out
 
 
 def _subset_tier(tier, frame):
-    core3 = len(frame) == 3 and set(frame) <= set(CORE)
-    return 'thorough+desc' if tier == 'thorough' and not core3 else tier
+    core3 = tier == 'thorough' and len(frame) == 3 and set(frame) <= set(CORE)
+    return 'core3' if core3 else tier
+
+
+# representation sub-space of the labels= argument: the same label lists in every accepted Python representation
+# (the property quantifies over label subsets, not over how the caller spells them); reduced parameter product
+# (the representation is consumed by np.atleast_1d / check_labels before any per-source work starts, so it is
+# crossed with relabel x npixels x numbering x frame only, at one (nlevels, mode, connectivity, contrast), data variant 'pos')
+REPR_PARAMS = [(4, 'linear', 8)]
+REPR_CONTRAST = (0.001,)
+
+
+def repr_subsets(labs):
+    """(labels, kind): every single label as numpy scalar / 1-element list /
+    1-element tuple / 1-element int64 and int32 array; the full list ascending and
+    descending (>= 2 parents) as tuple / int64 array / int32 array."""
+    ls = sorted(labs)
+    out = [(l, k) for l in ls for k in ('npint', 'list1', 'tuple', 'array', 'array32')]
+    if len(ls) >= 2:
+        out += [(q, k) for q in (ls, ls[::-1]) for k in ('tuple', 'array', 'array32')]
+    return out
 
 
 SCHED_SCENES = {
@@ -161,11 +248,30 @@ def _sched_params_for(scene, tier):
     return ps[:2] if len(SCHED_SCENES[scene][0]) >= 5 else ps
 
 
-def sched_subsets(labs):
-    """None and, for >= 3 parents, 'all but the first parent in raster order'."""
-    out = [None]
-    if len(labs) >= 3:
-        out.append(sorted(labs[1:]))
+def sched_subsets(labs, tier='thorough'):
+    """labels= alphabet of the schedule product, (labels, kind) pairs in the
+    CALLER'S order; ``labs`` are the labels in raster (tile) order.  The number
+    of elements depends only on len(labs).
+
+      None;
+      2 parents : the full list in both orders, each as list and as int64 array;
+      >= 3      : all but the first parent (raster order), ascending list;
+                  the full list descending (list) -- quick, >= 4 parents: all but the
+                  LAST parent (raster order) descending, which keeps the task count at 3;
+                  a rotated (neither ascending nor descending) list as int64 array:
+                  of all labels for 3 parents, of all but the first parent for >= 4;
+      every single label as a scalar int (one task at most).
+    Lists with a repeated label are not enumerated: see subsets()."""
+    out = [(None, None)]
+    ls = sorted(labs)
+    if len(ls) == 2:
+        out += [(q, k) for q in (ls, ls[::-1]) for k in (None, 'array')]
+    elif len(ls) >= 3:
+        rest = sorted(labs[1:])
+        out.append((rest, None))
+        out.append((rotated(ls if len(ls) == 3 else rest), 'array'))
+        out.append((ls[::-1] if tier == 'thorough' or len(ls) == 3 else sorted(labs[:-1], reverse=True), None))
+    out += [(l, None) for l in ls]
     return out
 
 
@@ -205,11 +311,19 @@ def _prime(segm):
         getattr(segm, a)
 
 
+_BEFORE = {}
+
+
 def _call(deblend_sources, SegmentationImage, data, seg, p, nproc, quantity=False):
     """One call of the real code on a fresh input.  -> dict."""
     segm = SegmentationImage(seg.copy())
     _prime(segm)
-    before = {k: digest(v) for k, v in segm.__dict__.items()}
+    # the snapshot of a fresh, primed input is a function of the label array alone: computed once per array
+    hit = _BEFORE.get(id(seg))
+    if hit is None or hit[0] is not seg:
+        _BEFORE.clear()
+        hit = _BEFORE[id(seg)] = (seg, {k: digest(v) for k, v in segm.__dict__.items()})
+    before = hit[1]
     arr_id = id(segm.data)
     d = data
     if quantity:
@@ -217,7 +331,7 @@ def _call(deblend_sources, SegmentationImage, data, seg, p, nproc, quantity=Fals
         d = data * u.Jy
     d0 = np.array(data, copy=True)
     labels = p['labels']
-    lab_arg = labels if labels is None or isinstance(labels, int) else list(labels)
+    lab_arg = labels_arg(labels, p.get('labels_kind'))
     res = {'exc': None, 'out': None, 'warnings': [], 'input_bad': None}
     with warnings.catch_warnings(record=True) as w:
         warnings.simplefilter('always')
@@ -253,7 +367,7 @@ def _call(deblend_sources, SegmentationImage, data, seg, p, nproc, quantity=Fals
                         res['input_bad'] = f'segment_img gained attribute {k} that a fresh object disagrees with: {dd}'
     if res['input_bad'] is None and not np.array_equal(np.asarray(getattr(d, 'value', d)), d0):
         res['input_bad'] = 'data array changed'
-    if isinstance(lab_arg, list) and lab_arg != list(labels):
+    if isinstance(lab_arg, list) and lab_arg != list(np.atleast_1d(labels)):
         res['input_bad'] = 'labels list changed'
     res['segm_in'] = segm
     return res
@@ -278,6 +392,11 @@ def _first_diff(a, b):
         if a[k] != b[k]:
             return k
     return None
+
+
+def _unsorted(labels):
+    """Named predicate on the case: labels= is a list that is not in ascending order."""
+    return isinstance(labels, list) and list(labels) != sorted(labels)
 
 
 def _requested(seg, labels):
@@ -338,6 +457,12 @@ def _refine_case(acc, frame, numb, variant, p, seed, built=None):
         acc.counters['parents_split'] += nsplit
         if any(c >= 3 for c in info['children']):
             acc.counters['cases_with_3_children'] += 1
+        # vacuity guard of the label-order axis: the caller's order is not ascending and at least two of the
+        # requested parents are split (their child numbers depend on the processing order)
+        if nsplit >= 2 and _unsorted(p['labels']):
+            acc.counters['cases_non_ascending_labels_with_two_parents_split'] += 1
+        if p.get('labels_kind'):
+            acc.counters['cases_labels_representation_' + p['labels_kind']] += 1
         # vacuity guard of the spike sub-space: a parent whose marker numbers have a hole (npixels > spike size) is
         # split in the same call as at least one other parent (child numbers of different parents must not collide)
         if nsplit >= 2 and p['npixels'] > 1:
@@ -350,11 +475,18 @@ def _run_refine(acc, unit, tier, seed):
     frame, numb, variant = tuple(unit['frame']), unit['numbering'], unit['variant']
     built = S.build(frame, numb, 'pos' if variant == 'quantity' else variant, seed)
     labs = built[2]
-    for sub in subsets(labs, _subset_tier(tier, frame)):
+    for sub, kind in subsets(labs, _subset_tier(tier, frame)):
         for nl, ct, mode, conn, rl, npx in itertools.product(NLEVELS, CONTRAST, MODES, CONN, RELABEL, NPIXELS):
-            p = {'labels': sub, 'nlevels': nl, 'contrast': ct, 'mode': mode, 'connectivity': conn,
+            p = {'labels': sub, 'labels_kind': kind, 'nlevels': nl, 'contrast': ct, 'mode': mode, 'connectivity': conn,
                  'relabel': rl, 'npixels': npx}
             _refine_case(acc, frame, numb, variant, p, seed, built)
+    # representation sub-space of labels= (reduced parameter product)
+    if variant == 'pos':
+        for sub, kind in repr_subsets(labs):
+            for (nl, mode, conn), ct, rl, npx in itertools.product(REPR_PARAMS, REPR_CONTRAST, RELABEL, NPIXELS):
+                p = {'labels': sub, 'labels_kind': kind, 'nlevels': nl, 'contrast': ct, 'mode': mode, 'connectivity': conn,
+                     'relabel': rl, 'npixels': npx}
+                _refine_case(acc, frame, numb, variant, p, seed, built)
 
 
 # ===========================================================================
@@ -406,6 +538,8 @@ def _sched_config(acc, scene, numb, variant, p, nprocs, seed, only_perm=None):
             for st in s.states:
                 acc.state_keys.add(hash((cfgkey, nproc, st)))
             nontriv = perm != tuple(range(n)) and nsplit >= 2
+            if nsplit >= 2 and _unsorted(p['labels']):
+                acc.counters['schedules_non_ascending_labels_with_two_parents_split'] += 1
             acc.case(nontrivial=nontriv, sample=case if acc.evaluations % 1499 == 5 else None)
             acc.counters['schedules'] += 1
             if fifo_feasible(perm, nproc):
@@ -429,7 +563,8 @@ def _sched_config(acc, scene, numb, variant, p, nprocs, seed, only_perm=None):
                 ident = perm == tuple(range(n))
                 obs = _describe(res['out'], res['warnings'], k, ser['out'])
                 exp = _describe(ser['out'], ser['warnings'], k, res['out'])
-                acc.violation('schedule-dependence', f'{k}:{"submission-order" if ident else "permuted"}', case, obs, exp,
+                site = f'{k}:{"submission-order" if ident else "permuted"}' + (':labels-not-ascending' if _unsorted(p['labels']) else '')
+                acc.violation('schedule-dependence', site, case, obs, exp,
                               f'result with nproc={nproc} and completion order {list(perm)} differs from nproc=1 in {k}')
 
 
@@ -481,10 +616,11 @@ def _run_schedule(acc, unit, tier, seed):
     for cfg in _sched_configs(scene, tier):
         if cfg['relabel'] != unit['relabel'] or cfg['contrast'] != unit['contrast']:
             continue
-        sub = sched_subsets(labs)[cfg['subset_index']]
+        sub, kind = sched_subsets(labs, tier)[cfg['subset_index']]
         p = {k: v for k, v in cfg.items() if k != 'subset_index'}
         p['labels'] = sub
-        n_exp = _expected_tasks(scene, p, seed) if sub is None else len(sub)
+        p['labels_kind'] = kind
+        n_exp = _expected_tasks(scene, p, seed) if sub is None else len(np.atleast_1d(sub))
         _sched_config(acc, scene, numb, variant, p, _nprocs(n_exp), seed)
 
 
@@ -585,10 +721,12 @@ def _run_real(acc, unit, tier, seed):
     D, SegmentationImage, deblend_sources = _api()
     scene, nproc = unit['scene'], unit['nproc']
     frame, npx = SCHED_SCENES[scene]
-    for numb, rl in (('gaps', False), ('reversed', True)):
-        p = {'labels': None, 'nlevels': 8, 'contrast': 0.001, 'mode': 'exponential', 'connectivity': 8,
-             'relabel': rl, 'npixels': npx}
+    for numb, rl, lab_order in (('gaps', False, None), ('reversed', True, 'descending')):
         data, seg, labs = S.build(frame, numb, 'mixed', seed)
+        # second run: the caller lists the labels in descending order (int64 array)
+        sub, kind = (None, None) if lab_order is None else (sorted(labs, reverse=True), 'array')
+        p = {'labels': sub, 'labels_kind': kind, 'nlevels': 8, 'contrast': 0.001, 'mode': 'exponential', 'connectivity': 8,
+             'relabel': rl, 'npixels': npx}
         case = {'part': 'realpool', 'scene': scene, 'frame': list(frame), 'numbering': numb, 'variant': 'mixed',
                 'nproc': nproc, **p}
         ser = _call(deblend_sources, SegmentationImage, data, seg, p, 1)
@@ -628,7 +766,8 @@ def _run_real(acc, unit, tier, seed):
                 raise ModelMismatch(f'the real spawn pool (completion order {list(order)}) gave a result that differs from '
                                     f'nproc=1 in {k}, but the stub with the same order does not reproduce it')
             scase = dict(case, part='schedule', perm=list(order))
-            acc.violation('schedule-dependence', f'{k}:{"permuted" if list(order) != sorted(order) else "submission-order"}', scase, _describe(res['out'], res['warnings'], k, ser['out']),
+            site = f'{k}:{"permuted" if list(order) != sorted(order) else "submission-order"}' + (':labels-not-ascending' if _unsorted(sub) else '')
+            acc.violation('schedule-dependence', site, scase, _describe(res['out'], res['warnings'], k, ser['out']),
                           _describe(ser['out'], ser['warnings'], k, res['out']),
                           f'observed with the REAL spawn pool, nproc={nproc}, completion order {list(order)}; '
                           'replayed deterministically under the stub executor')
@@ -689,7 +828,9 @@ def run_unit(unit, tier, seed):
 def replay(case, seed):
     acc = Acc()
     part = case['part']
-    pkeys = ('labels', 'nlevels', 'contrast', 'mode', 'connectivity', 'relabel', 'npixels')
+    pkeys = ('labels', 'labels_kind', 'nlevels', 'contrast', 'mode', 'connectivity', 'relabel', 'npixels')
+    case = dict(case)
+    case.setdefault('labels_kind', None)        # replay files written before the representation axis existed
     if part == 'refine':
         p = {k: case[k] for k in pkeys}
         _refine_case(acc, tuple(case['frame']), case['numbering'], case['variant'], p, seed)
@@ -733,7 +874,16 @@ def describe(tier, seed):
             'refine_frames': [list(f) for f in frames],
             'numbering': list(refine_numberings(tier)),
             'variant': 'pos, nonpos' + ('' if tier == 'quick' else ', quantity (frames of <= 2 parents); pos only for the 64 core triples and the 5-parent frames'),
-            'labels_subset': 'None, each single label (scalar), every pair' + (' in both orders (ascending only for the 64 core triples)' if tier == 'thorough' else ''),
+            'labels_argument': 'ordered, in the caller\'s order: None; each single label (scalar int); every pair in both '
+                               'orders; >= 3 parents: the full list in all 3! orders (3-parent frames'
+                               + (' other than the 64 core triples' if tier == 'thorough' else '') + '), otherwise '
+                               'ascending / descending / rotated (sorted list rotated by one: non-monotone); no repeated labels',
+            'labels_representation_subspace': {
+                'labels': 'every single label as numpy int64 scalar / 1-element list / tuple / int64 array / int32 array; '
+                          'the full list (>= 2 parents) ascending and descending as tuple / int64 array / int32 array',
+                'crossed_with': {'frame': 'all', 'numbering': 'all', 'variant': ['pos'], 'relabel': list(RELABEL),
+                                 'npixels': list(NPIXELS), '(nlevels, mode, connectivity)': [list(x) for x in REPR_PARAMS],
+                                 'contrast': list(REPR_CONTRAST)}},
             'nlevels': list(NLEVELS), 'contrast': list(CONTRAST), 'mode': list(MODES), 'connectivity': list(CONN),
             'relabel': list(RELABEL), 'npixels': list(NPIXELS),
             'label_dtype_subspace': {'frames': [list(f) for f in DTYPE_FRAMES], 'dtype': list(DTYPES),
@@ -742,9 +892,19 @@ def describe(tier, seed):
         'bound': {
             'schedule_scenes': {s: {'frame': list(SCHED_SCENES[s][0]), 'npixels': SCHED_SCENES[s][1]} for s in scenes},
             'max_tasks_N': 4 if tier == 'quick' else 5,
+            'schedule_labels_argument': {
+                '2 parents': 'None; the full list ascending and descending, each as list and as int64 array; each scalar',
+                '>= 3 parents': 'None; all but the first parent (raster order) ascending, list; rotated (non-monotone) int64 '
+                                'array of all labels (3 parents) or of all but the first parent (>= 4); descending list of '
+                                + ('all labels' if tier == 'thorough' else 'all labels (3 parents) or of all but the last parent (>= 4)')
+                                + '; each scalar',
+                'example_3_parents_consec': [jsonable_sub(x) for x in sched_subsets([1, 2, 3], tier)],
+                'example_4_parents_consec': [jsonable_sub(x) for x in sched_subsets([1, 2, 3, 4], tier)]},
             'completion_orders': 'all N! per (scene, numbering in consec/gaps/reversed, variant in pos/nonpos/mixed, relabel, '
-                                 'contrast in 0.001/0.3, labels in None/all-but-first, '
+                                 'contrast in 0.001/0.3, labels argument (see schedule_labels_argument), '
                                  f'(nlevels, mode, connectivity) in {sched_param_sets(tier)} (first two for N=5), nproc in {{2,3,N}})',
             'real_spawn_pool_runs': [list(x) for x in (REAL_QUICK if tier == 'quick' else REAL_THOROUGH)],
+            'real_spawn_pool_labels': 'each (scene, nproc) twice: numbering gaps / relabel False / labels None, and numbering '
+                                      'reversed / relabel True / labels = all labels descending as int64 array',
         },
     }
